@@ -176,6 +176,19 @@ func init() {
 	mutant(&Mutant{Name: "c03-colgroup-end-tag-dropped-before-template", Property: "C03", File: "html/html.go",
 		Old: "keepTag = next.TokenType == html.StartTagToken && (next.Hash == Colgroup || next.Hash == Col || next.Hash == Template)", New: "keepTag = next.TokenType == html.StartTagToken && (next.Hash == Colgroup || next.Hash == Col)",
 		Rule: "R03.23", Construct: "in front of colgroup and col"})
+	mutant(&Mutant{Name: "c02-switch-saved-after-it-is-set", Property: "C02", File: "js/js.go",
+		Old: "func (m *jsMinifier) minifyMethodDecl(decl *js.MethodDecl) {\n\tparentRename := m.renamer.rename\n\tm.renamer.rename = !decl.Body.Scope.HasWith && !m.o.KeepVarNames\n",
+		New: "func (m *jsMinifier) minifyMethodDecl(decl *js.MethodDecl) {\n\tm.renamer.rename = !decl.Body.Scope.HasWith && !m.o.KeepVarNames\n\tparentRename := m.renamer.rename\n",
+		Rule: "R02.2", Construct: "is saved before the switch is set"})
+	mutant(&Mutant{Name: "c01-upper-case-exponent-not-looked-for", Property: "C01", File: "js/util.go",
+		Old: "if !hasPrefix && (bytes.Contains(d, []byte(\"e-\")) || bytes.Contains(d, []byte(\"E-\"))) {", New: "if !hasPrefix && bytes.Contains(d, []byte(\"e-\")) {",
+		Rule: "R01.33", Construct: "written E-"})
+	mutant(&Mutant{Name: "c03-carriage-return-behind-dropped-comment", Property: "C03", File: "html/html.go",
+		Old: "0 < len(next.Data) && (next.Data[0] == '\\n' || next.Data[0] == '\\r') {", New: "0 < len(next.Data) && next.Data[0] == '\\n' {",
+		Rule: "R03.28", Construct: "a carriage return is treated alike"})
+	mutant(&Mutant{Name: "c04-second-alpha-digit-not-examined", Property: "C04", File: "css/css.go",
+		Old: "\t\tif len(data) == 9 && data[7] == data[8] {\n\t\t\tif data[7] == 'f' {\n", New: "\t\tif len(data) == 9 {\n\t\t\tif data[7] == 'f' && data[8] == 'f' {\n",
+		Rule: "R04.34", Construct: "examines both alpha digits"})
 	mutant(&Mutant{Name: "c19-named-hidden-directory-skipped", Property: "C19", File: "cmd/minify/main.go",
 		Old: "!hidden && d.Name()[0] == '.' && input != dir {", New: "!hidden && d.Name()[0] == '.' {",
 		More: [][2]string{{"\t\t\tdir := input // named on the command line, minified also when its name is hidden\n", ""}},
